@@ -148,6 +148,21 @@ def r17_2(ctx: Ctx) -> RuleResult:
         n.attr for n in ast.walk(fn.node)
         if isinstance(n, ast.Attribute) and n.attr.endswith("_token") and path_of(n.value) == "self.env"
     }
+    # (a helper that is handed `self.env` reads them through its parameter)
+    for c in ast.walk(fn.node):
+        if not isinstance(c, ast.Call):
+            continue
+        site = ctx.callgraph.by_node.get(id(c))
+        for callee in (site.callees if site is not None else []):
+            params = [a.arg for a in callee.node.args.args]
+            if callee.cls is not None and params and params[0] in ("self", "cls"):
+                params = params[1:]
+            for i, a in enumerate(c.args):
+                if path_of(a) == "self.env" and i < len(params):
+                    used |= {
+                        n.attr for n in ast.walk(callee.node)
+                        if isinstance(n, ast.Attribute) and n.attr.endswith("_token") and path_of(n.value) == params[i]
+                    }
     if used == set(defaults):
         rr.ok(fn.loc(), f"compile_rules reads exactly the environment's token attributes {sorted(used)}")
     else:
